@@ -30,6 +30,7 @@ NP_FUNCS: Dict[str, Callable] = {
     "power": lambda x, y: x ** y, "add": lambda x, y: x + y, "subtract": lambda x, y: x - y, "multiply": lambda x, y: x * y,
     "divide": lambda x, y: x / y, "true_divide": lambda x, y: x / y, "logaddexp": lambda x, y: sp.log(sp.exp(x) + sp.exp(y)),
     "logaddexp2": lambda x, y: sp.log(2 ** x + 2 ** y) / sp.log(2), "maximum": sp.Max, "minimum": sp.Min,
+    "greater": sp.Gt, "less": sp.Lt, "greater_equal": sp.Ge, "less_equal": sp.Le, "equal": sp.Eq, "not_equal": sp.Ne,
     "sinc": lambda x: sp.sin(sp.pi * x) / (sp.pi * x), "logical_not": sp.Not,
     "ones_like": lambda x: sp.Integer(1), "zeros_like": lambda x: sp.Integer(0), "asarray": lambda x, **k: x, "array": lambda x, **k: x,
     "float64": lambda x: x, "float32": lambda x: x,
